@@ -40,6 +40,7 @@ type Profile struct {
 	Filters          bool
 	WSText           bool // text chunks rich in whitespace (C13)
 	LongText         bool // with WSText: occasionally a text chunk of 4 KiB..70 KiB
+	Twins            bool // two arrays derived from one filtered array by concat, the first read again after the second was made
 	NoArith          bool
 	Failing          bool // may contain one construct that fails at render time
 	BigMaps          bool // bind maps with 2..12 entries (C02)
@@ -236,6 +237,19 @@ func (g *genv) text() *N {
 	return Text(rapid.SampledFrom(al).Draw(g.t, "text"))
 }
 
+// twin: an assigned value is to stay what it was when a second value is derived from the same source.
+func (g *genv) twin() *N {
+	arrs := []string{"a", "w", "x"}
+	join := func(v string) *N { return Obj(Flt(Var(v), "join", LStr(","))) }
+	return &N{T: "if", E: LBool(true), Body: []*N{
+		Assign("tb", Flt(Var(arrs[g.pick("twarr", 3)]), []string{"uniq", "compact"}[g.pick("twf", 2)])),
+		Assign("tc", Flt(Var("tb"), "concat", Var(arrs[g.pick("twp", 3)]))),
+		join("tc"), Text("|"),
+		Assign("td", Flt(Var("tb"), "concat", Var(arrs[g.pick("twq", 3)]))),
+		join("tc"), Text("|"), join("td"), Text(";"),
+	}}
+}
+
 // block draws a sequence of nodes.
 func (g *genv) block(depth, min int) []*N {
 	n := min + g.pick("len", 4)
@@ -264,6 +278,9 @@ func (g *genv) node(depth int) *N {
 	}
 	if g.p.Assign {
 		opts = append(opts, opt{2, g.assign})
+	}
+	if g.p.Twins && g.p.Assign {
+		opts = append(opts, opt{1, g.twin})
 	}
 	if g.p.Capture && deep {
 		opts = append(opts, opt{1, func() *N { return g.capture(depth) }})
